@@ -19,15 +19,22 @@ RULE = ("every stream of the committed corpus (corpus/: the 25 legacy .drc files
         "than mesh 2.2 / point cloud 2.3 must give UNKNOWN_VERSION, the accept/reject decision must equal the gate "
         "table proved about the model (driver op vgate), rewritten streams <= 4000 bytes are decoded by the model "
         "too, and a relabelled stream that decoded at freeze time must not silently decode to something else; "
-        "legacy decode paths driven on purpose (props/legacycases.py); non-trivial = distinct stream bytes")
+        "legacy decode paths driven on purpose (props/legacycases.py); non-trivial = distinct stream bytes"
+        '; as built the corpus holds 751 streams: the 25 testdata files, 39 assembled legacy kd-tree streams '
+        '(versions 1.0 .. 2.2, integer and float method; tools/freeze_kdlegacy.py), 260 split-rich Edgebreaker '
+        'streams (tools/freeze_splitrich.py) and the 427 frozen encoder streams; legacy kd-tree payloads re-laid-'
+        'out for every version 1.0 .. 2.2 with rewritten descriptor blocks, and their corruptions, against the '
+        'Lean decoder model (props/kdlegacy.py)')
 THEOREM_BACKED = ("unknown_version_rejected / newer_version_stream_rejected (version gate of the decoder model, whatever "
                   "follows the header), gate_table_mesh / gate_table_point_cloud (decision tables), "
                   "format_constants_frozen* and version_gates_frozen (constants regenerated from the source == frozen copy)")
-CORRESPONDENCE_ONLY = ("nothing in the corpus: every one of the 452 streams (bitstreams 1.1 .. 2.3, sequential, kd-tree, "
-                       "Edgebreaker) is decoded by the Lean decoder model and agrees token for token with the real decoder "
-                       "(evidence.input_distribution `model:decoded`; a `model:unsupported_*` tag would name a branch that "
-                       "is checked against the frozen decode only). That the model reads OLD bytes the way the decoder of "
-                       "that time did is not provable — it is what the frozen decodes record")
+CORRESPONDENCE_ONLY = ('nothing in the corpus: every one of the 751 streams (bitstreams 1.0 .. 2.3, sequential, kd-tree of every'
+                       ' version, Edgebreaker) is decoded by the Lean decoder model and agrees token for token with the real '
+                       'decoder (evidence.input_distribution `model:decoded`; a `model:unsupported_*` tag would name a branch '
+                       'that is checked against the frozen decode only). That the model reads OLD bytes the way the decoder of '
+                       'that time did is not provable — it is what the frozen decodes record; the 39 legacy kd-tree streams are '
+                       "assembled from the library's own tree encoders (no legacy kd writer exists), so they record the CURRENT "
+                       'reading of those layouts')
 EXPLANATION = ("history property: what is provable is the gate and the constancy of format constants; that the decoder "
                "still reads old bytes the old way is observed on the frozen corpus (exact replay: file + first "
                "differing element). Encoder bytes of the frozen inputs are re-produced and tagged encoder:same/changed "
@@ -225,6 +232,11 @@ def generate(rng, tier):
     cases += legacycases.stream_cases()
     cases += legacycases.patched_scheme_cases(rng, n=24 if tier == "quick" else 120)
     cases += legacycases.transcoded_cases(rng, n=40 if tier == "quick" else 300)
+    # legacy (< 2.3) kd-tree decode paths (integer / float method): streams assembled from the library's own tree
+    # encoders, re-laid-out for every version 1.0 .. 2.2, and their corruptions, against the Lean decoder model
+    # (props/kdlegacy.py); 39 such streams are part of the frozen corpus (legacy/kdlegacy_*.drc, tools/freeze_kdlegacy.py)
+    from . import kdlegacy
+    cases += kdlegacy.cases(rng, tier)
     return cases
 
 
